@@ -183,7 +183,7 @@ func hookValidate(t *tms20.TileMatrixSet, ids []int) hookResult {
 	cmd := exec.Command(texelVerifBin, "verif-validate", file, idsJSON(ids))
 	var stdout, stderr bytes.Buffer
 	cmd.Stdout, cmd.Stderr = &stdout, &stderr
-	runErr := cmd.Run()
+	runErr := runLimited(cmd)
 	line := strings.TrimRight(stdout.String(), "\n")
 	res := hookResult{loaded: r.Value, faithful: reflect.DeepEqual(r.Value.TileMatrices, t.TileMatrices)}
 	switch {
@@ -295,6 +295,7 @@ func pID(id int, s string) pert {
 // pShift renumbers every tile matrix: key k and id string k become k+d (d = 1 on a set that starts at 0: "all ids
 // renumbered from 1" -- a perfect quadtree in every local condition, but without tile matrix 0).
 func pShift(d int) pert {
+	// kind "": whether a renumbering breaks a condition depends on where the ids start afterwards (quadSpec decides)
 	return pert{fmt.Sprintf("PShift %s", hc.CoqZ(int64(d))), fmt.Sprintf("every tile matrix k renumbered k%+d", d),
 		func(t *tms20.TileMatrixSet) {
 			n := make(map[int]tms20.TileMatrix, len(t.TileMatrices))
@@ -309,9 +310,13 @@ func pShift(d int) pert {
 // ---- the independent oracle: the quadtree conditions recomputed with exact arithmetic ------------------
 
 type specResult struct {
-	ok        bool   // all conditions hold
+	ok        bool   // all conditions hold, except "the ids start at 0" (reported apart: firstNotZero)
 	broken    string // first broken condition
 	uncertain bool   // a cell size ratio within 1e-12 of a tolerance bound: no claim
+	// the smallest id of a non-empty set is not 0 ("consecutive integer ids from 0"): such a set must not pass the
+	// VALIDATION (before the repair of F22 only DeviationStats objected, and only when there was no tile matrix 0 at all)
+	firstNotZero bool
+	firstID      int
 }
 
 func ratioOf(prev, cur float64) *big.Rat {
@@ -330,6 +335,9 @@ func quadSpec(t *tms20.TileMatrixSet) specResult {
 		if res.ok {
 			res.ok, res.broken = false, s
 		}
+	}
+	if len(ids) > 0 && ids[0] != 0 {
+		res.firstNotZero, res.firstID = true, ids[0]
 	}
 	for i, id := range ids {
 		m := t.TileMatrices[id]
@@ -410,13 +418,14 @@ type c14Base struct {
 	set     tms20.TileMatrixSet
 	builtin bool
 	exact   bool // halving is exact (synthetic) or within the documents' precision (built-in)
+	doc     *J   // the source document (the built-in file / the synthetic document), nil when it does not parse
 }
 
 func runC14(c *hc.Ctx) error {
 	vs := newViolations(c)
 	var buf bufferedCases
-	c.Sum.Rule = "tile matrix sets = the built-in documents and synthetic exact quadtrees (tile width 1/256/512, both corners, first id 0 or 2); unperturbed (all id lists incl. the real binary for the built-in sets) and with every single-field perturbation (matrix width/height, tile width/height, origin by 1 ulp / 1e-9 / 1 unit, corner, cell size at ratios {1, 1.98, 1.99 -/+ 1ulp, 1.9900001, 2 -/+ 1e-9, 2.0099999, 2.01 -/+ 1 ulp, 2.02, 3} to BOTH neighbours, zero and negative, NaN and +Inf / -Inf, deletion, variable widths incl. the empty non-nil slice, id strings) at the first, second, a random and the last level (thorough: every level), plus random pairs of perturbations, plus the sets without tile matrix 0 that keep every other condition (tile matrix 0 deleted; every id renumbered +1, +3, back to 0; requested ids [1], deepest, [1..5]; thorough: also first, all, the first five); the unperturbed synthetic sets, the sets without tile matrix 0 and a hashed 1-in-24 (thorough 1-in-6) sample of all other evaluations are written to a file (tms20 MarshalJSON) and validated by the CLI's own validateTileMatrixSet (`texel verif-validate`, build tag verif); distinct = distinct (set, perturbations, ids); non-trivial = perturbed or accepted"
-	c.Sum.Oracle = "on the implementation (pointindex.IsQuadTree, DeviationStats, the texel binary; panics recovered): accepted => the quadtree conditions recomputed from the struct with exact rationals hold (ratio cases within 1e-12 of 1.99/2.01 make no claim); a perturbation breaking exactly one condition of an accepted set => rejected with an error; a NaN or infinite cell size at any level => rejected by IsQuadTree and by the composite (oracle only: such a value has no decimal in the model and no JSON document, so no correspondence case and no run of the hook); never a panic; for accepted unperturbed sets with a 1x1 root the pixel size reported by DeviationStats (int64 reso) equals cellSize(z)/16 within 1e-7 relative (built-in documents halve only to ~3e-8) resp. exactly to 1e-10 units (synthetic); the binary's verdict equals the library composite; the verdict of validateTileMatrixSet on a set given as a file (verif hook) equals the library composite on the value that file decodes to -- in particular a DeviationStats error (no tile matrix 0) is a rejection -- and is never a panic (values that cannot be encoded or whose document does not load are skipped and counted)"
+	c.Sum.Rule = "tile matrix sets = the built-in documents and synthetic exact quadtrees (tile width 1/256/512, both corners, first id 0 or 2); unperturbed (all id lists incl. the real binary for the built-in sets) and with every single-field perturbation (matrix width/height, tile width/height, origin by 1 ulp / 1e-9 / 1 unit, corner, cell size at ratios {1, 1.98, 1.99 -/+ 1ulp, 1.9900001, 2 -/+ 1e-9, 2.0099999, 2.01 -/+ 1 ulp, 2.02, 3} to BOTH neighbours, zero and negative, NaN and +Inf / -Inf, deletion, variable widths incl. the empty non-nil slice, id strings) at the first, second, a random and the last level (thorough: every level), plus random pairs of perturbations, plus (F22) the source DOCUMENTS of every quadtree set (built-in and synthetic, renumbered from 0 where needed) with the id strings of all tile matrices shifted by s in {-3..-1, 1..3} (a negative shift keeps a tile matrix 0) and with their first k = 1..3 (thorough: every k) tile matrices removed, requested ids first / last / 0 / 5 (thorough: also all), each through `texel verif-validate` without MarshalJSON in between, plus the sets without tile matrix 0 that keep every other condition (tile matrix 0 deleted; every id renumbered +1, +3, back to 0; requested ids [1], deepest, [1..5]; thorough: also first, all, the first five); the unperturbed synthetic sets, the sets without tile matrix 0 and a hashed 1-in-24 (thorough 1-in-6) sample of all other evaluations are written to a file (tms20 MarshalJSON) and validated by the CLI's own validateTileMatrixSet (`texel verif-validate`, build tag verif); distinct = distinct (set, perturbations, ids); non-trivial = perturbed or accepted"
+	c.Sum.Oracle = "on the implementation (pointindex.IsQuadTree, DeviationStats, the texel binary; panics recovered): accepted => the quadtree conditions recomputed from the struct with exact rationals hold (ratio cases within 1e-12 of 1.99/2.01 make no claim); a perturbation breaking exactly one condition of an accepted set => rejected with an error; a NaN or infinite cell size at any level => rejected by IsQuadTree and by the composite (oracle only: such a value has no decimal in the model and no JSON document, so no correspondence case and no run of the hook); a set whose smallest id is not 0 is never accepted by the validation, and every document of the streams 'all ids shifted' / 'first tile matrices removed' is rejected by the library composite and by `texel verif-validate` (reject, whatever the message: never accept, never a panic); never a panic; for accepted unperturbed sets with a 1x1 root the pixel size reported by DeviationStats (int64 reso) equals cellSize(z)/16 within 1e-7 relative (built-in documents halve only to ~3e-8) resp. exactly to 1e-10 units (synthetic); the binary's verdict equals the library composite; the verdict of validateTileMatrixSet on a set given as a file (verif hook) equals the library composite on the value that file decodes to -- in particular a DeviationStats error (no tile matrix 0) is a rejection -- and is never a panic (values that cannot be encoded or whose document does not load are skipped and counted)"
 	c.Sum.Partial = "float clause: the ratio condition is the binary64 test the code performs; its meaning for the exact quotient of the two float64 cell sizes is proved with a slack of 2^-50 (C14_ratio_exact: within [1.99 - 2^-50, 2.01 + 2^-50]); validate_total carries the level bound d + log2(tile width) + 4 < 64 (every built-in set satisfies it; a 60-level set does not: C14_validate_total_level_bound_needed)"
 	c.Sum.TrustedBase = []string{
 		"float64 division and comparison in IsQuadTree modelled bit-exactly through f64 (round to nearest even of the exact quotient of the two binary64 values)",
@@ -445,7 +454,11 @@ func runC14(c *hc.Ctx) error {
 			vs.add(hc.Violation{What: "a built-in tile matrix set document does not decode", Input: n, Observed: err.Error()})
 			continue
 		}
-		bases = append(bases, c14Base{n, "(BGen " + coqStr(n) + ")", t, true, false})
+		var src *J
+		if raw, err := builtinRaw(c, n); err == nil {
+			src, _ = parseJ(raw)
+		}
+		bases = append(bases, c14Base{n, "(BGen " + coqStr(n) + ")", t, true, false, src})
 	}
 	for _, s := range []struct {
 		levels, tw   int
@@ -464,7 +477,7 @@ func runC14(c *hc.Ctx) error {
 		if r.Kind != "ok" {
 			return fmt.Errorf("synthetic set does not decode: %s", r.Msg)
 		}
-		bases = append(bases, c14Base{fmt.Sprintf("synthetic(levels=%d,tile=%d,corner=%q,first=%d)", s.levels, s.tw, s.corner, s.first), "(BLit " + doc.coq() + ")", *r.Value, false, true})
+		bases = append(bases, c14Base{fmt.Sprintf("synthetic(levels=%d,tile=%d,corner=%q,first=%d)", s.levels, s.tw, s.corner, s.first), "(BLit " + doc.coq() + ")", *r.Value, false, true, doc})
 	}
 
 	// which evaluations also go through `texel verif-validate` (one process start each): all that ask for it
@@ -480,13 +493,19 @@ func runC14(c *hc.Ctx) error {
 	}
 	hookViolations := 0
 	seen := map[string]bool{}
-	runH := func(b c14Base, ps []pert, ids []int, useBinary bool, hook int) {
+	// raw != nil: the document that goes to `texel verif-validate` instead of tms20's MarshalJSON of the perturbed value;
+	// f22 != "": an evaluation of the streams "all ids shifted" / "first matrices removed" (its name): the validation must reject
+	f22Violations := 0
+	runHX := func(b c14Base, ps []pert, ids []int, useBinary bool, hook int, raw []byte, f22 string) {
 		var pc, pd []string
 		for _, p := range ps {
 			pc = append(pc, p.coq)
 			pd = append(pd, p.desc)
 		}
 		key := fmt.Sprintf("%s|%v|%v|%v", b.name, pd, ids, useBinary)
+		if raw != nil {
+			key += "|document"
+		}
 		if seen[key] {
 			return
 		}
@@ -529,6 +548,20 @@ func runC14(c *hc.Ctx) error {
 			}
 		}
 		spec := quadSpec(&t)
+		if spec.firstNotZero {
+			c.Count("ids do not start at 0: IsQuadTree " + qc + ", validate " + vc)
+			if vc == "accept" {
+				vs.add(hc.Violation{What: fmt.Sprintf("validation accepts a tile matrix set whose tile matrix ids do not start at 0 (first id %d)", spec.firstID), Input: in, Observed: "IsQuadTree: " + qc + "; validate: accepted", Expected: "rejected with an error: consecutive integer ids from 0"})
+			}
+		}
+		if f22 != "" {
+			// the library composite on these values is judged by the two oracles above (every such set has a first id
+			// other than 0: accepted => violation; a panic => violation); the CLI's own function is judged below
+			c.Count(f22 + ": library composite " + vc)
+			if !spec.firstNotZero {
+				vs.add(hc.Violation{What: "harness: a set of the stream '" + f22 + "' starts at id 0", Input: in, Observed: "first id 0", Expected: "a first id other than 0"})
+			}
+		}
 		if qc == "accept" && !spec.ok && !spec.uncertain {
 			vs.add(hc.Violation{What: "IsQuadTree accepts a tile matrix set that is not a quadtree: " + spec.broken, Input: in, Observed: "accepted", Expected: "rejected: " + spec.broken})
 		}
@@ -572,7 +605,23 @@ func runC14(c *hc.Ctx) error {
 		if hook != hookNever && !useBinary {
 			// the CLI's own validateTileMatrixSet on this value, written to a file: its verdict must be that of the
 			// library composite on the value the document decodes to (the same value unless the round trip changes it)
-			hr := hookValidate(&t, ids)
+			var hr hookResult
+			if raw != nil {
+				hr = hookValidateDoc(raw, ids, &t)
+			} else {
+				hr = hookValidate(&t, ids)
+			}
+			if f22 != "" {
+				c.Count(f22 + ": texel verif-validate " + hr.class)
+				if hr.class == "accept" || hr.class == "panic" {
+					f22Violations++
+					fin := map[string]any{"set": b.name, "perturbations": pd, "ids": ids, "command": "texel (go build -tags verif) verif-validate <document> '" + idsJSON(ids) + "'"}
+					if raw != nil && f22Violations <= 2 {
+						fin["document"] = string(raw)
+					}
+					vs.add(hc.Violation{What: "validateTileMatrixSet does not reject the document of a quadtree tile matrix set with " + f22, Input: fin, Observed: "texel verif-validate: " + hr.class + " " + hr.msg, Expected: "reject (never accept, never a panic): the ids are not the consecutive integers from 0"})
+				}
+			}
 			if hr.class == "skip" {
 				c.Count("verif-validate: skipped, " + hr.skip)
 			} else {
@@ -583,10 +632,15 @@ func runC14(c *hc.Ctx) error {
 					lc, lm, _ = runValidate(*hr.loaded, ids)
 				}
 				hin := map[string]any{"set": b.name, "perturbations": pd, "ids": ids, "command": "texel (go build -tags verif) verif-validate <document of the perturbed set, tms20 MarshalJSON> '" + idsJSON(ids) + "'"}
+				if raw != nil {
+					hin["command"] = "texel (go build -tags verif) verif-validate <the source document with its tile matrix ids rewritten / entries removed> '" + idsJSON(ids) + "'"
+				}
 				if hr.class != lc || hr.class == "panic" {
 					hookViolations++
 					if hookViolations <= 3 {
-						if doc, kind, _ := encodeTMS(&t); kind == "ok" {
+						if raw != nil {
+							hin["document"] = string(raw)
+						} else if doc, kind, _ := encodeTMS(&t); kind == "ok" {
 							hin["document"] = string(doc)
 						}
 					}
@@ -638,6 +692,9 @@ func runC14(c *hc.Ctx) error {
 		}
 	}
 
+	runH := func(b c14Base, ps []pert, ids []int, useBinary bool, hook int) {
+		runHX(b, ps, ids, useBinary, hook, nil, "")
+	}
 	run := func(b c14Base, ps []pert, ids []int, useBinary bool) { runH(b, ps, ids, useBinary, hookSampled) }
 
 	// 1. unperturbed, several id lists; the built-in ones also through the real binary, all of them (the synthetic
@@ -834,6 +891,84 @@ func runC14(c *hc.Ctx) error {
 				}
 			}
 			run(b, []pert{mk(id1, m1), mk(id2, b.set.TileMatrices[id2])}, []int{ids[c.Rng.Intn(len(ids))]}, false)
+		}
+	}
+	// 4. (F22) documents of quadtree sets -- built-in and synthetic -- with ALL ids shifted by s in {-3..-1, 1..3} and with
+	// their first k tile matrices removed, through the CLI's own validateTileMatrixSet: always a reject.  A negative shift
+	// keeps a tile matrix 0 (the 2x2 / 4x4 / 8x8 one), so nothing but "the ids start at 0" is broken.  The documents are
+	// the source documents with the "id" strings rewritten / entries left out (no MarshalJSON in between); the set is
+	// first renumbered from 0 when it starts elsewhere (the synthetic set that starts at 2).
+	for _, b := range bases {
+		if b.doc == nil {
+			c.Count("F22 streams: source document does not parse (skipped)")
+			continue
+		}
+		ids := sortedIDs(&b.set)
+		c0 := -ids[0]
+		canon := cloneSet(b.set)
+		if c0 != 0 {
+			pShift(c0).apply(&canon)
+		}
+		if cl, _ := runIsQuadTree(canon); cl != "accept" {
+			continue
+		}
+		c.Count("F22 streams: quadtree sets (renumbered from 0 where needed)")
+		n := len(ids)
+		for _, sft := range []int{-3, -2, -1, 1, 2, 3} {
+			d := c0 + sft
+			doc, ok := shiftDoc(b.doc, d)
+			if !ok {
+				c.Count("F22 streams: ids of the source document are not integers (skipped)")
+				continue
+			}
+			raw := doc.bytes()
+			first, last := sft, sft+n-1
+			lists := [][]int{{first}, {last}}
+			for _, q := range []int{0, 5} {
+				if first <= q && q <= last && q != first && q != last {
+					lists = append(lists, []int{q})
+				}
+			}
+			if !c.Quick() {
+				all := make([]int, n)
+				for i := range all {
+					all[i] = first + i
+				}
+				lists = append(lists, all, []int{first + n/2, first})
+			}
+			name := "all ids shifted by a negative number (tile matrix 0 present)"
+			if sft > 0 {
+				name = "all ids shifted by a positive number (no tile matrix 0)"
+			}
+			for _, l := range lists {
+				runHX(b, []pert{pShift(d)}, l, false, hookAlways, raw, name)
+			}
+		}
+		maxK := 3
+		if !c.Quick() {
+			maxK = n - 1
+		}
+		for k := 1; k <= maxK && k < n; k++ {
+			var ps []pert
+			src := b.doc
+			if c0 != 0 {
+				ps = append(ps, pShift(c0))
+				var ok bool
+				if src, ok = shiftDoc(b.doc, c0); !ok {
+					break
+				}
+			}
+			for i := 0; i < k; i++ {
+				ps = append(ps, pDelete(i))
+			}
+			doc, ok := dropBelowDoc(src, k)
+			if !ok {
+				break
+			}
+			raw := doc.bytes()
+			for _, l := range [][]int{{k}, {n - 1}} {
+				runHX(b, ps, l, false, hookAlways, raw, "its first tile matrices removed")
+			}
 		}
 	}
 	buf.flush(c, "Texel.Corr.C14", "theories/Corr/C14.v", 16)
